@@ -36,6 +36,9 @@ def run_job(job):
     elif job.get("starve_bodies"):
         LONG_FROM[0] = scen.get("long_from", 0)
         chooser = starving_chooser(job["seed"])
+    elif job.get("delay"):
+        chooser = W.delay_chooser(job["seed"], p_timeout=min(0.1, scen["sched"].get("p_timeout", 0.0)),
+                                  crash=scen["sched"].get("p_crash", 0.0) > 0)
     elif job.get("pct"):
         chooser = W.pct_chooser(job["seed"], depth=1 + job["seed"] % 4, p_timeout=scen["sched"].get("p_timeout", 0.0),
                                 p_crash=(0.5 if scen["sched"].get("p_crash", 0.0) > 0 else 0.0))
@@ -147,6 +150,8 @@ class E1Part:
                              "starve_bodies": bool(self.starve and i % self.starve == 0
                                                    and fam in ("kill", "saturate", "saturateleak", "satreuse")),
                              "pct": i % 5 in (1, 3) and fam not in ("saturate",),
+                             "delay": (i % 5 == 4 or (i % 5 == 2 and fam.startswith("reuse"))) and not fy
+                                      and fam not in ("saturate", "saturateleak", "satreuse"),
                              "sample": i == 0})
         return jobs
 
